@@ -138,10 +138,12 @@ def catalogue():
     return C
 
 
-def fresh_catalogue():
+def fresh_catalogue(scheme=None):
     import numpy as np
 
     def w(fp, pd, path, df, **kw):
+        if scheme:
+            kw.setdefault("file_scheme", scheme)      # replace an existing dataset by one of the same layout
         fp.write(path, df, **kw)
     F = [("write: unsupported column type (complex)", lambda fp, pd, p: w(fp, pd, p, pd.DataFrame({"x": np.array([1j, 2j])}))),
          ("write: non-text column name", lambda fp, pd, p: w(fp, pd, p, pd.DataFrame({1: [1, 2]}))),
@@ -199,21 +201,34 @@ def catalogue_job(args):
 
 
 def fresh_job(args):
-    jid, ci, base = args
+    jid, ci, base = args[:3]
+    over = args[3] if len(args) > 3 else None        # None: nothing at the target; "simple" | "hive": a dataset exists there
     fp = use_repo()
     import pandas as pd
     root = os.path.join(base, "w%d" % jid)
     os.makedirs(root)
     out = {"jid": jid, "viol": [], "evals": 1}
     try:
-        name, fn = fresh_catalogue()[ci]
+        name, fn = fresh_catalogue(over)[ci]
+        target = os.path.join(root, "out")
+        before = None
+        if over:
+            fp.write(target, base_frame(pd, 0, 4), file_scheme=over, row_group_offsets=[0, 2], write_index=False)
+            before = _content(fp, target)
         raised = None
         try:
-            fn(fp, pd, os.path.join(root, "out"))
+            fn(fp, pd, target)
         except BaseException as e:  # noqa
             raised = e
+        sig = {"rejection": name, "op": "write (append=False)" + (" over an existing %s dataset" % ("single-file" if over == "simple" else "multi-file") if over else "")}
         if raised is None:
-            out["viol"].append({"rejection": name, "what": "operation was not refused (no exception)"})
+            out["viol"].append(dict(sig, what="operation was not refused (no exception)"))
+        elif over:
+            try:
+                if _content(fp, target) != before:
+                    out["viol"].append(dict(sig, what="content changed by a refused operation"))
+            except BaseException as e:  # noqa
+                out["viol"].append(dict(sig, what="dataset unreadable after a refused operation", exc=type(e).__name__))
     except BaseException:  # noqa
         out["error"] = traceback.format_exc()
     finally:
@@ -365,8 +380,11 @@ def _run(ev, work, thorough):
             verd.add(v, {"state": states()[j[1]], "rejection": catalogue()[j[2]][0]})
     fbase = os.path.join(work, "fresh")
     os.makedirs(fbase)
-    fr = pmap(fresh_job, [(n, n, fbase) for n in range(len(fresh_catalogue()))], job_timeout=120)
-    for n, r in enumerate(fr):
+    fjobs = [(len(fresh_catalogue()) * k + n, n, fbase, over) for k, over in enumerate((None, "simple", "hive"))
+             for n in range(len(fresh_catalogue()))]
+    fr = pmap(fresh_job, fjobs, job_timeout=120)
+    for fj, r in zip(fjobs, fr):
+        n = fj[1]
         if isinstance(r, Crashed):
             verd.add({"rejection": fresh_catalogue()[n][0], "what": "interpreter crashed or hung"}, {})
             continue
@@ -374,7 +392,7 @@ def _run(ev, work, thorough):
             raise RuntimeError("catalogue machinery failed:\n" + r["error"])
         ev.evaluations += 1
         for v in r["viol"]:
-            verd.add(v, {"rejection": fresh_catalogue()[n][0]})
+            verd.add(v, {"rejection": fresh_catalogue()[n][0], "existing_dataset": fj[3]})
     ev.extra.update(single_file_histories=len(hists), hive_fault_histories=len(dh), hive_skipped_not_a_part_write=skipped,
                     catalogue_cases=ncat, fresh_write_refusals=len(fr), traces_rejected_as_drift=rej)
     if rej:
